@@ -23,7 +23,7 @@ use std::mem;
 pub const NU: usize = 6;
 pub const NI: usize = 6;
 /// values are kept below this many 32-bit words; growing operations beyond it are skipped
-pub const CAP_WORDS: usize = 1400;
+pub const CAP_WORDS: usize = 3400;
 
 pub struct Machine {
     pub u: Vec<BigUint>,
@@ -503,8 +503,21 @@ impl Machine {
                     }
                 }
                 "u.from_prim" => {
-                    let x = with_uty!(t, k, x => BigUint::from(x));
-                    self.put_u(d, x, obs);
+                    use num_bigint::ToBigUint;
+                    let x: Option<BigUint> = match f {
+                        0 => Some(with_uty!(t, k, x => BigUint::from(x))),
+                        1 => with_ty!(t, k, x => BigUint::try_from(x).ok()),
+                        2 => with_ty!(t, k, x => x.to_biguint()),
+                        3 => Some(BigUint::from(k & 1 == 1)),
+                        4 => (f64::from_bits(k as u64)).to_biguint(),
+                        5 => (f32::from_bits(k as u32)).to_biguint(),
+                        6 => BigUint::from_i128(k),
+                        _ => BigUint::from_u128(k as u128),
+                    };
+                    match x {
+                        Some(x) => self.put_u(d, x, obs),
+                        None => obs.none = true,
+                    }
                 }
                 "u.from_f64" => {
                     let x = f64::from_bits(k as u64);
@@ -877,7 +890,19 @@ impl Machine {
                         12 => x.to_f64().map(|v| v.to_bits() as i128),
                         13 => x.to_f32().map(|v| v.to_bits() as i128),
                         14 => u64::try_from(x).ok().map(|v| v as i128),
-                        _ => i128::try_from(x).ok(),
+                        15 => i128::try_from(x).ok(),
+                        16 => u8::try_from(x).ok().map(|v| v as i128),
+                        17 => u16::try_from(x).ok().map(|v| v as i128),
+                        18 => u32::try_from(x).ok().map(|v| v as i128),
+                        19 => u128::try_from(x).ok().map(|v| v as i128),
+                        20 => usize::try_from(x).ok().map(|v| v as i128),
+                        21 => i8::try_from(x).ok().map(|v| v as i128),
+                        22 => i16::try_from(x).ok().map(|v| v as i128),
+                        23 => i32::try_from(x).ok().map(|v| v as i128),
+                        24 => i64::try_from(x).ok().map(|v| v as i128),
+                        25 => isize::try_from(x).ok().map(|v| v as i128),
+                        26 => match u64::try_from(x.clone()) { Ok(v) => Some(v as i128), Err(e) => { dg.u64(hash_of(&e.into_original())); None } },
+                        _ => match i64::try_from(x.clone()) { Ok(v) => Some(v as i128), Err(e) => { dg.u64(hash_of(&e.into_original())); None } },
                     };
                     dg.u64(v.is_some() as u64);
                     dg.u64(v.unwrap_or(0) as u64);
@@ -969,8 +994,20 @@ impl Machine {
                     }
                 }
                 "i.from_prim" => {
-                    let x = with_ty!(t, k, x => BigInt::from(x));
-                    self.put_i(d, x, obs);
+                    let x: Option<BigInt> = match f {
+                        0 => Some(with_ty!(t, k, x => BigInt::from(x))),
+                        1 => with_ty!(t, k, x => x.to_bigint()),
+                        2 => Some(BigInt::from(k & 1 == 1)),
+                        3 => (f64::from_bits(k as u64)).to_bigint(),
+                        4 => (f32::from_bits(k as u32)).to_bigint(),
+                        5 => BigInt::from_i128(k),
+                        6 => BigInt::from_u128(k as u128),
+                        _ => BigInt::from_i64(k as i64),
+                    };
+                    match x {
+                        Some(x) => self.put_i(d, x, obs),
+                        None => obs.none = true,
+                    }
                 }
                 "i.from_f64" => {
                     let x = f64::from_bits(k as u64);
@@ -1346,7 +1383,19 @@ impl Machine {
                         12 => x.to_f64().map(|v| v.to_bits() as i128),
                         13 => x.to_f32().map(|v| v.to_bits() as i128),
                         14 => u64::try_from(x).ok().map(|v| v as i128),
-                        _ => i128::try_from(x).ok(),
+                        15 => i128::try_from(x).ok(),
+                        16 => u8::try_from(x).ok().map(|v| v as i128),
+                        17 => u16::try_from(x).ok().map(|v| v as i128),
+                        18 => u32::try_from(x).ok().map(|v| v as i128),
+                        19 => u128::try_from(x).ok().map(|v| v as i128),
+                        20 => usize::try_from(x).ok().map(|v| v as i128),
+                        21 => i8::try_from(x).ok().map(|v| v as i128),
+                        22 => i16::try_from(x).ok().map(|v| v as i128),
+                        23 => i32::try_from(x).ok().map(|v| v as i128),
+                        24 => i64::try_from(x).ok().map(|v| v as i128),
+                        25 => isize::try_from(x).ok().map(|v| v as i128),
+                        26 => match u64::try_from(x.clone()) { Ok(v) => Some(v as i128), Err(e) => { dg.u64(hash_of(&e.into_original())); None } },
+                        _ => match i64::try_from(x.clone()) { Ok(v) => Some(v as i128), Err(e) => { dg.u64(hash_of(&e.into_original())); None } },
                     };
                     dg.u64(v.is_some() as u64);
                     dg.u64(v.unwrap_or(0) as u64);
